@@ -156,6 +156,20 @@ pub fn run_case(c: &Case, st: &mut Stats) -> Option<(String, String)> {
                     attempted_since_ok.push(a);
                 }
             }
+            if ok && handled_error {
+                // once an error has been reported, the storage must stay in an admissible state after every
+                // later call as well (e.g. a collection must not remove files the stored meta.json still needs)
+                let committed = d.model.committed.clone();
+                let admissible = attempted_since_ok.clone();
+                let v = with_faults_off(&sim, &mut || match read_ids(&sim) {
+                    Ok(ids) if ids == committed || admissible.contains(&ids) => None,
+                    Ok(ids) => Some(("storage_state_mixed_after_error".to_string(), format!("after step {i} {s:?} (which followed a reported error) a fresh open shows {ids:?}; last ok commit {committed:?}, failed commits {admissible:?}"))),
+                    Err(e) => Some(("storage_unreadable_after_error".to_string(), format!("after step {i} {s:?} (which followed a reported error): {e}"))),
+                });
+                if v.is_some() {
+                    return v;
+                }
+            }
             if !ok {
                 st.count("api_errors");
                 // whatever failed, the storage holds the last ok commit or a failed commit's complete state
@@ -239,7 +253,7 @@ pub fn run_case(c: &Case, st: &mut Stats) -> Option<(String, String)> {
 }
 
 fn work_list(thorough: bool) -> Vec<Case> {
-    let wls: Vec<usize> = if thorough { (0..workloads().len()).collect() } else { vec![0, 1] };
+    let wls: Vec<usize> = if thorough { (0..workloads().len()).collect() } else { vec![0, 1, 5] };
     let cfgs: Vec<WlConfig> = if thorough { configs() } else { configs().into_iter().take(2).collect() };
     let mut out = vec![];
     for &wl in &wls {
